@@ -351,7 +351,14 @@ var docFaultOps = []docFaultOp{
 			if !namedNonList(v.Type) || d == nil || v.Value.Kind != "Object" || !hasDirective(d, "oneOf") || len(v.Value.Fields) != 1 {
 				continue
 			}
-			switch rapid.IntRange(0, 2).Draw(t, "how") {
+			switch rapid.IntRange(0, 4).Draw(t, "how") {
+			case 3:
+				// the single member is not a field of the type
+				v.Value.Fields[0].Name = "nosuchfield"
+			case 4:
+				// ... and its value is null
+				v.Value.Fields[0].Name = "nosuchfield"
+				v.Value.Fields[0].Value = &ref.Value{Kind: "Null", Raw: "null"}
 			case 0:
 				v.Value.Fields = nil
 			case 1:
